@@ -32,3 +32,10 @@ pub assume_specification[ i64::checked_neg ](x: i64) -> (r: Option<i64>)
     ensures match r { Some(v) => (v as int) == -(x as int), None => x == i64::MIN };
 // Vec lengths never exceed usize::MAX (std: capacity <= isize::MAX)
 pub axiom fn axiom_vec_len_bound<T>(v: &Vec<T>) ensures v@.len() <= usize::MAX;
+// bool -> integer conversions (std: `false` is 0, `true` is 1); vstd specifies only the integer widenings
+pub assume_specification[ <usize as From<bool>>::from ](b: bool) -> (r: usize) ensures r == (if b { 1usize } else { 0usize });
+pub assume_specification[ <u64 as From<bool>>::from ](b: bool) -> (r: u64) ensures r == (if b { 1u64 } else { 0u64 });
+pub assume_specification[ <u32 as From<bool>>::from ](b: bool) -> (r: u32) ensures r == (if b { 1u32 } else { 0u32 });
+pub assume_specification[ <u8 as From<bool>>::from ](b: bool) -> (r: u8) ensures r == (if b { 1u8 } else { 0u8 });
+pub assume_specification[ <i64 as From<bool>>::from ](b: bool) -> (r: i64) ensures r == (if b { 1i64 } else { 0i64 });
+pub assume_specification[ <i32 as From<bool>>::from ](b: bool) -> (r: i32) ensures r == (if b { 1i32 } else { 0i32 });
